@@ -98,8 +98,10 @@ func doRefund(n int) {
 		}
 		maxy, _ := conversions.Convert(h, in, ir, ir, pr, pr)
 		y := int64(0)
-		if maxy > 0 {
+		if maxy > 0 && maxy < math.MaxInt64 {
 			y = rng.Int63n(maxy + 1)
+		} else if maxy == math.MaxInt64 {
+			y = rng.Int63n(maxy)
 		}
 		if rng.Intn(4) == 0 {
 			y = maxy
